@@ -478,17 +478,47 @@ func genC31(r *Rand, n int, tier string, emit func(string)) {
 		maxV := map[string]int{"alonzo": 0, "babbage": 1, "conway": 2, "dijkstra": 3}[era]
 		usedM := map[uint]struct{}{}
 		usedL := []uint{}
-		for v := 0; v <= maxV; v++ {
-			if r.Chance(2, 3) {
-				usedM[uint(v)] = struct{}{}
-				usedL = append(usedL, uint(v))
+		refs, ins := []string{}, []string{}
+		// placement mode: every language of a random non-empty subset is contributed by exactly ONE
+		// place — witness set, a reference input, or a spent input (each reference/spent input is
+		// its own UTxO) — in every order; so "the later reference script's language is contributed
+		// by nothing else" and its relatives are generated as a class
+		placed := r.Chance(1, 2)
+		if placed {
+			for v := 0; v <= maxV; v++ {
+				if r.Chance(2, 3) || (v == maxV && len(usedM) == 0) {
+					usedM[uint(v)] = struct{}{}
+					src := 0
+					if era != "alonzo" {
+						src = Pick(r, 0, 1, 1, 1, 2)
+					}
+					switch src {
+					case 0:
+						usedL = append(usedL, uint(v))
+					case 1:
+						refs = append(refs, fmt.Sprint(v))
+						if r.Chance(1, 5) { // the same language on a second reference input
+							refs = append(refs, fmt.Sprint(v))
+						}
+					default:
+						ins = append(ins, fmt.Sprint(v))
+					}
+				}
+			}
+			c06Shuffle(r, refs)
+			c06Shuffle(r, ins)
+		} else {
+			for v := 0; v <= maxV; v++ {
+				if r.Chance(2, 3) {
+					usedM[uint(v)] = struct{}{}
+					usedL = append(usedL, uint(v))
+				}
 			}
 		}
 		c06Shuffle(r, usedL)
 		// reference scripts: languages carried by reference-input / spent-input UTxOs (Babbage+)
-		refs, ins := []string{}, []string{}
 		witOnly := append([]uint{}, usedL...)
-		if era != "alonzo" && r.Chance(1, 3) {
+		if !placed && era != "alonzo" && r.Chance(1, 3) {
 			for k := 0; k < 1+r.Intn(3); k++ {
 				v := uint(r.Intn(maxV + 1))
 				if r.Bool() {
@@ -501,12 +531,21 @@ func genC31(r *Rand, n int, tier string, emit func(string)) {
 		}
 		cm := map[uint][]int64{}
 		for v := uint(0); v < 4; v++ {
-			if !r.Chance(1, 12) {
+			if placed || !r.Chance(1, 12) {
 				cm[v] = c31CostModel(r)
 			}
 		}
 		nred := Pick(r, 0, 0, 1, 1, 2)
 		ndat := Pick(r, 0, 0, 1, 2)
+		if placed && nred == 0 && ndat == 0 {
+			// something to bind, so that the hash comparison is reached; datum-only is a class of
+			// its own (absent redeemers are hashed as the era's empty structure)
+			if r.Bool() {
+				ndat = 1 + r.Intn(2)
+			} else {
+				nred = 1
+			}
+		}
 		red := "-"
 		var redB []byte
 		// (the Dijkstra decoder refuses an empty redeemers structure: non-empty by its CDDL)
@@ -539,36 +578,18 @@ func genC31(r *Rand, n int, tier string, emit func(string)) {
 		}
 		ih := g9Blake256(ipre)
 		decl := "-"
-		switch r.Intn(8) {
+		sel := r.Intn(8)
+		if placed {
+			// mostly: the right hash, or the hash of a near miss
+			sel = Pick(r, 0, 1, 2, 2, 2, 2, 3, 3, 3)
+		}
+		switch sel {
 		case 0:
 		case 1:
 			decl = hexs(r.Bytes(32))
 		case 2:
 			// hash of a near-miss pre-image
-			alt := append([]byte{}, redPart...)
-			switch r.Intn(4) {
-			case 0: // datums left out / put in although empty
-				if ndat == 0 {
-					alt = append(alt, datB...)
-				}
-			case 1: // language views left out
-				if ndat > 0 {
-					alt = append(alt, datB...)
-				}
-				alt = append(alt, 0xa0)
-			case 2: // datums before redeemers
-				alt = append(append([]byte{}, datB...), redPart...)
-				alt = append(alt, lv...)
-			default: // one byte of the language views flipped
-				if ndat > 0 {
-					alt = append(alt, datB...)
-				}
-				l2 := append([]byte{}, lv...)
-				if len(l2) > 0 {
-					l2[r.Intn(len(l2))] ^= 1
-				}
-				alt = append(alt, l2...)
-			}
+			alt := c31NearMiss(r, era, red == "-", redPart, datB, ndat, lv, usedM, cm)
 			if !bytes.Equal(alt, ipre) {
 				decl = hexs(g9Blake256(alt))
 			}
@@ -594,5 +615,76 @@ func genC31(r *Rand, n int, tier string, emit func(string)) {
 			line += " " + j(refs) + " " + j(ins)
 		}
 		emit(line)
+	}
+}
+
+// c31NearMiss: a pre-image that differs from the right one in one respect (its hash must be refused).
+func c31NearMiss(r *Rand, era string, redAbsent bool, redPart, datB []byte, ndat int, lv []byte, usedM map[uint]struct{}, cm map[uint][]int64) []byte {
+	withDat := func(b []byte) []byte {
+		if ndat > 0 {
+			return append(b, datB...)
+		}
+		return b
+	}
+	alt := append([]byte{}, redPart...)
+	switch r.Intn(7) {
+	case 0: // datums left out / put in although empty
+		if ndat == 0 {
+			alt = append(alt, datB...)
+		}
+		return append(alt, lv...)
+	case 1: // language views left out
+		return append(withDat(alt), 0xa0)
+	case 2: // datums before redeemers
+		alt = append(append([]byte{}, datB...), redPart...)
+		return append(alt, lv...)
+	case 3, 4:
+		// language views of a different language set: one used language dropped, or one unused
+		// language (with a cost model) added
+		other := map[uint]struct{}{}
+		for v := range usedM {
+			other[v] = struct{}{}
+		}
+		ks := []uint{}
+		for v := uint(0); v < 4; v++ {
+			ks = append(ks, v)
+		}
+		c06Shuffle(r, ks)
+		changed := false
+		for _, v := range ks {
+			_, in := other[v]
+			_, hasCM := cm[v]
+			if in && (r.Bool() || len(other) > 1) {
+				delete(other, v)
+				changed = true
+				break
+			}
+			if !in && hasCM {
+				other[v] = struct{}{}
+				changed = true
+				break
+			}
+		}
+		if l2, ok := c31LangViews(other, cm); ok && changed {
+			return append(withDat(alt), l2...)
+		}
+		return append(withDat(alt), 0xa0)
+	case 5:
+		// absent redeemers hashed as the other era's empty structure (80 <-> a0)
+		if redAbsent {
+			if alt[0] == 0xa0 {
+				alt = []byte{0x80}
+			} else {
+				alt = []byte{0xa0}
+			}
+			return append(withDat(alt), lv...)
+		}
+		fallthrough
+	default: // one byte of the language views flipped
+		l2 := append([]byte{}, lv...)
+		if len(l2) > 0 {
+			l2[r.Intn(len(l2))] ^= 1
+		}
+		return append(withDat(alt), l2...)
 	}
 }
